@@ -61,8 +61,26 @@ def cross_call_state(m) -> list[tuple]:
                 for e in ast.walk(t):
                     if isinstance(e, ast.Name):
                         top.add(e.id)
+    # a module-level object with a mutable payload that functions hand out (a prebuilt Result, a shared list): every
+    # caller receives the same object, and what one of them does to it is what the next one gets
+    shared = {}
+    for n in m.tree.body:
+        if isinstance(n, (ast.Assign, ast.AnnAssign)) and n.value is not None:
+            v = n.value
+            mutable = isinstance(v, (ast.List, ast.Dict, ast.Set, ast.ListComp, ast.DictComp, ast.SetComp)) or (isinstance(v, ast.Call) and any(isinstance(x, (ast.List, ast.Dict, ast.Set, ast.ListComp, ast.DictComp, ast.SetComp)) for a_ in list(v.args) + [k.value for k in v.keywords] for x in ast.walk(a_)))
+            if mutable:
+                for t in n.targets if isinstance(n, ast.Assign) else [n.target]:
+                    if isinstance(t, ast.Name) and t.id != "__all__":
+                        shared[t.id] = n
     for q in sorted(m.funcs):
         f = m.funcs[q]
+        if shared:
+            loc = {x.id for x in ast.walk(f.node) if isinstance(x, ast.Name) and isinstance(x.ctx, ast.Store)} | set(f.params)
+            for r_ in f.own_nodes():
+                if isinstance(r_, ast.Return) and r_.value is not None:
+                    for x in ([r_.value.body, r_.value.orelse] if isinstance(r_.value, ast.IfExp) else [r_.value]):
+                        if isinstance(x, ast.Name) and x.id in shared and x.id not in loc:
+                            out.append((f, r_, x.id, f"`{ast.unparse(r_)[:50]}` hands out the module-level object `{x.id}` (`{ast.unparse(shared[x.id])[:50]}`), whose mutable payload is then shared by every caller"))
         for d in f.node.decorator_list:
             dn = ast.unparse(d.func if isinstance(d, ast.Call) else d)
             if dn in CACHE_DECORATORS:
